@@ -112,3 +112,29 @@ Print Assumptions socks5_addr_bounded.
 Theorem socks5_udp_header_bounded : forall l hl, parse_socks5_udp l = Some hl -> (N.to_nat hl <= length l)%nat.
 Proof. exact parse_socks5_udp_bounded. Qed.
 Print Assumptions socks5_udp_header_bounded.
+
+(* ---- why there is no window between session creation and the processing of its first segment *)
+(* the session as the event loop stores it (nothing processed yet) already belongs to the opener and is
+   invisible to every other user *)
+Theorem owner_defined_at_creation : forall sid pol u rest g,
+  pol <> 0 -> u <> pol -> g_sid g = sid -> g_block g = Some u ->
+  session_owner (created_session sid pol) = pol /\
+  lookup true (mkEndpoint Server UDP 0 (created_session sid pol :: rest)) g = None.
+Proof. exact DispatchProofs.owner_defined_at_creation. Qed.
+Print Assumptions owner_defined_at_creation.
+
+(* every session in a server's table has a defined owner: the policy written at creation *)
+Theorem owner_defined_in_table : forall e s, wf e -> is_client e = false -> In s (e_sessions e) ->
+  session_owner s <> 0 /\ s_policy s = Some (session_owner s).
+Proof. exact DispatchProofs.owner_defined_in_table. Qed.
+Print Assumptions owner_defined_in_table.
+
+(* the session goroutine never changes the owner the dispatch uses *)
+Theorem owner_stable_under_input : forall v tr s g s' o, s_policy s = Some o -> o <> 0 -> input v tr s g = InOk s' ->
+  session_owner s' = session_owner s.
+Proof. exact owner_stable. Qed.
+Print Assumptions owner_stable_under_input.
+
+(* an owner taken from s.userName alone is undefined on the created session (the seeded variant) *)
+Example username_only_undefined_at_creation : forall sid pol, owner_username_only (created_session sid pol) = 0.
+Proof. exact username_only_has_window. Qed.
